@@ -244,6 +244,9 @@ func (w *World) Run(sc *Scenario, o RunOpts) *Outcome {
 	}
 	if o.GOMAXPROCS > 0 {
 		env = append(env, "GOMAXPROCS="+strconv.Itoa(o.GOMAXPROCS))
+	} else if strings.Contains(sc.Strace, "when=") {
+		// keeps the system calls of the single yq goroutine on as few threads as possible
+		env = append(env, "GOMAXPROCS=1")
 	}
 	env = append(env, sc.Env...)
 	cmd.Env = env
